@@ -169,5 +169,11 @@ func redactEmailCheckNumber(s string) bool {
 	if last := s[len(s)-1]; last < '0' || last > '9' {
 		return false
 	}
+	// not a number if anything other than digits, dots and hyphens is in between, e.g. 1and1.de or 4you.x2
+	for i := 1; i < len(s)-1; i++ {
+		if c := s[i]; (c < '0' || c > '9') && c != '.' && c != '-' {
+			return false
+		}
+	}
 	return true
 }
